@@ -715,6 +715,14 @@ def _loop_probe(b, info):
     w.ctrl_states.add(st)
     w.outcomes.append(("S" if info["did_search"] else "-") + ("P" if info["did_poll"] else "-")
                       + ("e" if made > 0 else "0"))
+    if info["did_poll"] and b.optim_state["uncertainty_handling_level"] > 0:
+        try:
+            uh = b.iteration_history.get("u")
+            if uh is not None and len(uh) > info["poll_iteration"] and uh[info["poll_iteration"]] is not None and \
+                    not np.array_equal(np.asarray(uh[info["poll_iteration"]], float).reshape(-1), np.asarray(b.u, float).reshape(-1)):
+                w.probe("swap_to_earlier_iterate")
+        except Exception:
+            pass
     w.ev("loop_end", info["loop_iter"], info["poll_iteration"], info["did_search"],
          info["did_poll"], info["is_finished"], int(k), made)
     # C13: mesh exponent integral and capped at all times
